@@ -11,6 +11,7 @@ import (
 	"go/token"
 	"go/types"
 	"sort"
+	"strconv"
 	"strings"
 
 	"golang.org/x/tools/go/ssa"
@@ -40,14 +41,60 @@ func (w *World) depthFuncs(qt *QType) []*ssa.Function {
 		eachInstr(f, false, func(_ *ssa.Function, in ssa.Instruction) {
 			if c, ok := in.(ssa.CallInstruction); ok {
 				cc := c.Common()
-				if callee := cc.StaticCallee(); callee != nil && w.inPkg(callee) && callee.Signature.Recv() != nil && len(cc.Args) > 0 && isRecv(cc.Args[0]) {
+				if callee := cc.StaticCallee(); callee != nil && w.inPkg(callee) && (w.isIteratorHelper(callee, f, cc) || f.Synthetic != "") {
 					add(callee)
+				}
+			}
+			// a method value installed as the iterator (w.next): the bound-method
+			// thunk and, through it, the method
+			if mc, ok := in.(*ssa.MakeClosure); ok {
+				if cf, ok := mc.Fn.(*ssa.Function); ok {
+					add(cf)
 				}
 			}
 		})
 	}
 	add(sel)
-	return out
+	// the synthetic thunks themselves are not analysed
+	var real []*ssa.Function
+	for _, f := range out {
+		if f.Synthetic == "" {
+			real = append(real, f)
+		}
+	}
+	return real
+}
+
+// qtFieldAddr: v addresses a field of query struct type named, whatever the
+// pointer it goes through (the receiver, a captured receiver, a field of a
+// walker object).
+func qtFieldAddr(v ssa.Value, named *types.Named) (*types.Var, bool) {
+	fa, ok := v.(*ssa.FieldAddr)
+	if !ok || structOfAddr(fa) != named {
+		return nil, false
+	}
+	return fieldOfAddr(fa), true
+}
+
+func qtFieldLoad(v ssa.Value, named *types.Named) (*types.Var, bool) {
+	u, ok := strip(v).(*ssa.UnOp)
+	if !ok || u.Op != token.MUL {
+		return nil, false
+	}
+	return qtFieldAddr(u.X, named)
+}
+
+func isFieldStepT(v ssa.Value, f *types.Var, op token.Token, named *types.Named) bool {
+	bo, ok := v.(*ssa.BinOp)
+	if !ok || bo.Op != op {
+		return false
+	}
+	k, ok := constInt(bo.Y)
+	if !ok || k != 1 {
+		return false
+	}
+	g, ok := qtFieldLoad(bo.X, named)
+	return ok && g == f
 }
 
 func isFieldStep(v ssa.Value, f *types.Var, op token.Token) bool {
@@ -84,12 +131,12 @@ func ruleNDepth(w *World, r *Report) {
 		for _, f := range fns {
 			eachInstr(f, false, func(_ *ssa.Function, in ssa.Instruction) {
 				if st, ok := in.(*ssa.Store); ok {
-					if fl, ok := recvFieldAddr(st.Addr); ok && isIntType(fl.Type()) && isFieldStep(st.Val, fl, token.ADD) {
+					if fl, ok := qtFieldAddr(st.Addr, qt.Named); ok && isIntType(fl.Type()) && isFieldStepT(st.Val, fl, token.ADD, qt.Named) {
 						// the position counter is also incremented: the depth counter is the one also decremented
 						for _, g := range fns {
 							eachInstr(g, false, func(_ *ssa.Function, in2 ssa.Instruction) {
 								if st2, ok := in2.(*ssa.Store); ok {
-									if fl2, ok := recvFieldAddr(st2.Addr); ok && fl2 == fl && isFieldStep(st2.Val, fl, token.SUB) {
+									if fl2, ok := qtFieldAddr(st2.Addr, qt.Named); ok && fl2 == fl && isFieldStepT(st2.Val, fl, token.SUB, qt.Named) {
 										ctr = fl
 									}
 								}
@@ -122,11 +169,11 @@ func ruleNDepth(w *World, r *Report) {
 					}
 				}
 				if st, ok := in.(*ssa.Store); ok {
-					if fl, ok := recvFieldAddr(st.Addr); ok && fl == ctr {
-						if isFieldStep(st.Val, ctr, token.ADD) {
+					if fl, ok := qtFieldAddr(st.Addr, qt.Named); ok && fl == ctr {
+						if isFieldStepT(st.Val, ctr, token.ADD, qt.Named) {
 							incs = append(incs, in)
 						}
-						if isFieldStep(st.Val, ctr, token.SUB) {
+						if isFieldStepT(st.Val, ctr, token.SUB, qt.Named) {
 							decs = append(decs, in)
 						}
 					}
@@ -192,7 +239,7 @@ func ruleNDepth(w *World, r *Report) {
 				if !ok {
 					continue
 				}
-				fl, ok := recvFieldLoad(bo.X)
+				fl, ok := qtFieldLoad(bo.X, qt.Named)
 				if !ok || fl != ctr {
 					continue
 				}
@@ -229,7 +276,7 @@ func ruleNDepth(w *World, r *Report) {
 				if !ok {
 					continue
 				}
-				fl, ok := recvFieldLoad(bo.X)
+				fl, ok := qtFieldLoad(bo.X, qt.Named)
 				if !ok || fl != ctr {
 					continue
 				}
@@ -363,8 +410,14 @@ func ruleDedup(w *World, r *Report) {
 			}
 		})
 	}
-	if n < 3 {
-		r.bad("B-DEDUP", "sites", "", fmt.Sprintf("%d identity-key call sites found", n))
+	users := map[string]bool{}
+	for f := range r.FuncsAnalysed {
+		if i := strings.Index(f, ")."); i > 0 {
+			users[f[:i+1]] = true
+		}
+	}
+	if n < 2 {
+		r.bad("B-DEDUP", "sites", "", fmt.Sprintf("%d identity-key call sites found (the ancestor de-duplication and the union use it)", n))
 	}
 }
 
@@ -694,9 +747,24 @@ func ruleRepl(w *World, r *Report) {
 							}
 						}
 					}
-					if c, ok := in.(*ssa.Call); ok && c.Call.StaticCallee() != nil && c.Call.StaticCallee().String() == "fmt.Sprintf" {
-						if s, ok := constString(c.Call.Args[0]); ok && (s == "$%d" || s == "${%d}") {
-							okFmt = true
+					// the replacement performed for group n: with n = 12 the searched
+					// text must evaluate to "$12" and its replacement to "${12}",
+					// however the two strings are put together
+					if c, ok := in.(*ssa.Call); ok && c.Call.StaticCallee() != nil && c.Call.StaticCallee().String() == "strings.ReplaceAll" && len(c.Call.Args) == 3 {
+						var loopPhi *ssa.Phi
+						for _, lb := range comp {
+							for _, li := range lb.Instrs {
+								if ph, ok := li.(*ssa.Phi); ok && isIntType(ph.Type()) {
+									loopPhi = ph
+								}
+							}
+						}
+						if loopPhi != nil {
+							from, ok1 := evalStringWith(c.Call.Args[1], loopPhi, 12, 0)
+							to, ok2 := evalStringWith(c.Call.Args[2], loopPhi, 12, 0)
+							if ok1 && ok2 && from == "$12" && to == "${12}" {
+								okFmt = true
+							}
 						}
 					}
 				}
@@ -981,4 +1049,115 @@ func ruleASmart(w *World, r *Report) {
 	if ng == 0 {
 		r.bad("A-SMART", "group-sites", "", "no self-call of the node dispatcher (group unwrapping) found")
 	}
+}
+
+// evalStringWith evaluates a string-valued SSA expression built from
+// constants, concatenation, strconv.Itoa/FormatInt and fmt.Sprintf, the
+// integer variable v standing for k.
+func evalStringWith(x ssa.Value, v ssa.Value, k int64, depth int) (string, bool) {
+	if depth > 8 {
+		return "", false
+	}
+	intOf := func(y ssa.Value) (int64, bool) {
+		for {
+			switch z := y.(type) {
+			case *ssa.Convert:
+				y = z.X
+				continue
+			case *ssa.ChangeType:
+				y = z.X
+				continue
+			case *ssa.MakeInterface:
+				y = z.X
+				continue
+			}
+			break
+		}
+		if y == v {
+			return k, true
+		}
+		return constInt(y)
+	}
+	switch z := x.(type) {
+	case *ssa.Const:
+		return constString(z)
+	case *ssa.BinOp:
+		if z.Op == token.ADD {
+			a, ok1 := evalStringWith(z.X, v, k, depth+1)
+			b, ok2 := evalStringWith(z.Y, v, k, depth+1)
+			return a + b, ok1 && ok2
+		}
+	case *ssa.Call:
+		f := z.Call.StaticCallee()
+		if f == nil {
+			return "", false
+		}
+		switch f.String() {
+		case "strconv.Itoa":
+			if n, ok := intOf(z.Call.Args[0]); ok {
+				return strconv.Itoa(int(n)), true
+			}
+		case "strconv.FormatInt":
+			if n, ok := intOf(z.Call.Args[0]); ok {
+				if b, ok := constInt(z.Call.Args[1]); ok {
+					return strconv.FormatInt(n, int(b)), true
+				}
+			}
+		case "fmt.Sprintf", "fmt.Sprint":
+			var args []interface{}
+			start := 0
+			format := ""
+			if f.Name() == "Sprintf" {
+				s, ok := constString(z.Call.Args[0])
+				if !ok {
+					return "", false
+				}
+				format, start = s, 1
+			}
+			// variadic slice: stores into the backing array
+			if start < len(z.Call.Args) {
+				if sl, ok := z.Call.Args[start].(*ssa.Slice); ok {
+					if a, ok := sl.X.(*ssa.Alloc); ok {
+						vals := map[int64]ssa.Value{}
+						for _, u := range uses(a) {
+							if ia, ok := u.(*ssa.IndexAddr); ok {
+								idx, _ := constInt(ia.Index)
+								for _, uu := range uses(ia) {
+									if st, ok := uu.(*ssa.Store); ok {
+										vals[idx] = st.Val
+									}
+								}
+							}
+						}
+						for i := int64(0); i < int64(len(vals)); i++ {
+							if n, ok := intOf(vals[i]); ok {
+								args = append(args, n)
+							} else if s, ok := evalStringWith(vals[i], v, k, depth+1); ok {
+								args = append(args, s)
+							} else {
+								return "", false
+							}
+						}
+					}
+				}
+			}
+			if f.Name() == "Sprintf" {
+				return fmt.Sprintf(format, args...), true
+			}
+			return fmt.Sprint(args...), true
+		}
+	case *ssa.Phi:
+		// a local assigned once before use
+		var only string
+		have := false
+		for _, e := range z.Edges {
+			s, ok := evalStringWith(e, v, k, depth+1)
+			if !ok || have && s != only {
+				return "", false
+			}
+			only, have = s, true
+		}
+		return only, have
+	}
+	return "", false
 }
